@@ -59,7 +59,8 @@ class OsServicesForAnyOs(OsServices):
     def copy_tree__preserve_as_much_as_possible(self, src: str, dst: str):
         try:
             shutil.copytree(src, dst)
-        except OSError as ex:
+        except (OSError, RecursionError) as ex:
+            # RecursionError: the destination is inside the source, so the copy contains itself
             _raise_he__single_line(
                 'Failed to copy tree {src} -> {dst}',
                 {'src': src,
